@@ -22,14 +22,20 @@ func runC06(r *engine.Run) {
 	r.Rule("WHO-readonly", "the lookups of the transaction cache and of the block cache (and everything they reach in those types) never store into their own pending map: a pending map is a write set that Commit publishes, so a memoised read would be flushed as a write and overwrite another transaction's committed write")
 	r.Rule("ORDER-publish", "see C08: a block's ancestor link is published only after all of the block's keys are written (a lookup that runs during the commit must not walk past the half-written block)")
 	r.Rule("KEY-same", "Set/setValue/remove/commit store an entry under the key (and block hash) they were given; the tombstone arms store deleted=true")
+	r.Rule("DOM-writekept", "a write or removal handed to a cache layer (TransactionCache.Set/Remove, BlockCache.Set/setValue/remove) is recorded in that layer's pending map on every feasible path to every return (a store under the key parameter), and these methods never delete from the pending map: a dropped tombstone lets an ancestor's value show through")
+	r.Rule("CAP-absence", "the ancestor walk reads a missing entry in a key's versions map as 'that block did not write the key'; every container installed as a versions map (provenance of the value handed to StateCache.cache.Add) therefore must not be a plain capacity-bounded LRU (whose eviction order is the recency of lookups, so an old entry can outlive newer ones) unless it observes its evictions (constructed with an eviction callback)")
+	r.Rule("CLONE-boundary", "see C07: every value a lookup hands out is a Clone() of the stored one - a caller that edits a looked-up value in place must not change what the ancestor block or a sibling fork returns")
 	r.NotDec = append(r.NotDec,
-		"answers after LRU eviction (capacity arithmetic)", "equality with the block-tree oracle for every history")
+		"hit ratio after LRU eviction (capacity arithmetic)", "equality with the block-tree oracle for every history")
 	whoReadOnly(r, "WHO-readonly")
 	domNoMapSwap(r)
 	domTombstone(r)
 	domOwnFirst(r)
 	depWalk(r)
 	keySame(r)
+	domWriteKept(r, "DOM-writekept")
+	capAbsence(r, "CAP-absence")
+	cloneBoundary(r, "C06")
 	if commit := r.Fn("ORDER-publish", pkgSC, "StateCache", "commit"); commit != nil {
 		orderPublish(r, commit)
 	}
@@ -153,7 +159,20 @@ func valueNodeBase(v ssa.Value) (deletedKeys []string, ok bool) {
 			engine.Instrs(x.Parent(), func(in ssa.Instruction) {
 				if ld, ok := in.(*ssa.UnOp); ok && ld.Op == token.MUL {
 					if fa2, ok := ld.X.(*ssa.FieldAddr); ok && engine.FieldOf(fa2).Name() == "deleted" && engine.ValKey(fa2.X) == engine.ValKey(fa.X) {
-						out = append(out, engine.ValKey(ld))
+						// the flag read must describe the entry whose data is read: no store
+						// to the entry (whole struct or a field) between the two loads
+						rewritten := false
+						root := engine.AddrRoot(fa.X)
+						engine.Instrs(x.Parent(), func(w ssa.Instruction) {
+							if st, ok := w.(*ssa.Store); ok && root != nil && engine.AddrRoot(st.Addr) == root {
+								if engine.ReachableAfter(ld, w) && engine.ReachableAfter(w, x) {
+									rewritten = true
+								}
+							}
+						})
+						if !rewritten {
+							out = append(out, engine.ValKey(ld))
+						}
 					}
 				}
 			})
@@ -579,5 +598,143 @@ func whoReadOnly(r *engine.Run, rule string) {
 		}
 		r.Check(bad == "", rule, fn(f)+"|no write", pos, fmt.Sprintf("%d functions of the pending-cache types reachable, none writes a pending map", n),
 			"a lookup "+bad+": reads become part of the write set that Commit publishes, so a transaction that only read a key overwrites (or resurrects) what another transaction committed meanwhile")
+	}
+}
+
+// domWriteKept: a write or a removal handed to a cache layer is recorded in that
+// layer's pending map on every path: each return of the method is reached only
+// through a store into the map (under the key parameter), and the method never
+// removes an entry from the map. A tombstone that is dropped (or replaced by
+// "no entry") lets the value of an ancestor block or of the layer below show
+// through again.
+func domWriteKept(r *engine.Run, rule string) {
+	n := 0
+	for _, m := range []struct{ recv, name string }{
+		{"TransactionCache", "Set"}, {"TransactionCache", "Remove"},
+		{"BlockCache", "Set"}, {"BlockCache", "setValue"}, {"BlockCache", "remove"},
+	} {
+		f := r.Fn(rule, pkgSC, m.recv, m.name)
+		if f == nil {
+			continue
+		}
+		stores := map[*ssa.BasicBlock]bool{}
+		var storeInstrs []*ssa.MapUpdate
+		engine.Instrs(f, func(in ssa.Instruction) {
+			if mu, ok := in.(*ssa.MapUpdate); ok {
+				if fld := fieldLoadOf(mu.Map); fld != nil && fld.Name() == "cache" && mu.Key == ssa.Value(f.Params[1]) {
+					stores[mu.Block()] = true
+					storeInstrs = append(storeInstrs, mu)
+				}
+			}
+			if c, ok := in.(*ssa.Call); ok {
+				if b, ok := c.Call.Value.(*ssa.Builtin); ok && b.Name() == "delete" {
+					if fld := fieldLoadOf(c.Call.Args[0]); fld != nil && fld.Name() == "cache" {
+						n++
+						r.Fail(rule, fn(f)+"|delete from pending map", r.P.Pos(c.Pos()), "a write/remove method deletes an entry from the layer's pending map: the write or tombstone recorded there no longer shadows the layers below")
+					}
+				}
+			}
+		})
+		o := ord{}
+		for _, ret := range engine.Returns(f) {
+			if ret.Block().Comment == "recover" {
+				continue
+			}
+			n++
+			good := false
+			if stores[ret.Block()] {
+				for _, mu := range storeInstrs {
+					if mu.Block() == ret.Block() {
+						good = true
+					}
+				}
+			}
+			if !good {
+				paths, ok := engine.PathFactsAvoid(f, ret.Block(), stores, 4096)
+				if !ok {
+					r.Undec(rule, o.next(fn(f)+"|return"), r.P.Pos(ret.Pos()), "too many paths")
+					continue
+				}
+				good = len(paths) == 0
+			}
+			r.Check(good, rule, o.next(fn(f)+"|return"), r.P.Pos(ret.Pos()), "every feasible path to the return stores an entry under the key parameter into the pending map",
+				"the method can return without recording the write/removal in the layer's pending map: a removal that is not recorded as a tombstone lets the value of an ancestor block (or of the layer below) show through again")
+		}
+	}
+	if n < 5 {
+		r.Anchor(rule, fmt.Errorf("unresolved anchor: %d returns of write/remove methods found", n))
+	}
+}
+
+// capAbsence: the ancestor walk of StateCache.Get reads "no entry for block X in
+// the key's versions map" as "X did not write the key" and walks on to X's
+// parent. That inference needs the versions map to keep every entry that is
+// newer (on the chain) than an entry it still holds. A container that evicts by
+// recency of use (an LRU, refreshed by the lookups themselves) drops a newer
+// entry while an older, recently read one stays: the walk then returns the older
+// value as a hit. Obligation: every container installed as a per-key versions
+// map is either not constructed with a plain capacity-bounded LRU constructor,
+// or observes its evictions (constructed with an eviction callback).
+func capAbsence(r *engine.Run, rule string) {
+	n := 0
+	for _, f := range funcsOfPkg(r, pkgSC) {
+		if recvNamed(engine.TopFunc(f)) != "StateCache" {
+			continue
+		}
+		engine.Instrs(f, func(in ssa.Instruction) {
+			c, ok := in.(*ssa.Call)
+			if !ok || !lruCallOnField(c, "Add", "cache") {
+				return
+			}
+			// provenance of the installed versions map
+			seen := map[ssa.Value]bool{}
+			var ctors []*ssa.Call
+			var walk func(v ssa.Value)
+			walk = func(v ssa.Value) {
+				if seen[v] {
+					return
+				}
+				seen[v] = true
+				switch x := v.(type) {
+				case *ssa.MakeInterface:
+					walk(x.X)
+				case *ssa.TypeAssert:
+					walk(x.X)
+				case *ssa.ChangeInterface:
+					walk(x.X)
+				case *ssa.Phi:
+					for _, e := range x.Edges {
+						walk(e)
+					}
+				case *ssa.Extract:
+					walk(x.Tuple)
+				case *ssa.Call:
+					if extCalleeIs(x, "hashicorp/golang-lru", "", "New") || extCalleeIs(x, "hashicorp/golang-lru", "", "NewWithEvict") {
+						ctors = append(ctors, x)
+					}
+				case *ssa.UnOp:
+					// a local spilled to memory: follow its stores
+					if al, ok := x.X.(*ssa.Alloc); ok {
+						for _, ref := range engine.Referrers(al) {
+							if st, ok := ref.(*ssa.Store); ok && st.Addr == ssa.Value(al) {
+								walk(st.Val)
+							}
+						}
+					}
+				}
+			}
+			walk(c.Call.Args[2])
+			for _, k := range ctors {
+				n++
+				r.CallSites++
+				observed := k.Call.StaticCallee().Name() == "NewWithEvict" && !nilConst(k.Call.Args[1])
+				r.Check(observed, rule, fn(f)+"|versions map "+k.Call.StaticCallee().Name(), r.P.Pos(k.Pos()),
+					"the versions map observes its evictions",
+					"the per-key versions map is a capacity-bounded LRU without an eviction observer, and the ancestor walk reads a missing entry as 'this block did not write the key': once the map is full, an older entry kept alive by lookups outlives newer ones and is returned as a hit for blocks that overwrote or removed the key")
+			}
+		})
+	}
+	if n < 1 {
+		r.Anchor(rule, fmt.Errorf("unresolved anchor: constructor of the per-key versions map"))
 	}
 }
